@@ -77,6 +77,16 @@ impl Property for C15 {
             built.analysis = analyse(&built.prog);
             out.class("static-program-with-constant-declare");
         }
+        // One otherwise static program in eight ends with a `let` that reads a bidirectional signal (if the list has one):
+        // that is a device read like any other - the program is not static any more.
+        if !cfg.reads && dch.chance(1, 8) {
+            use crate::model::*;
+            if let Some(b) = built.sigs.iter().find(|s| matches!(s.kind, Kind::Bidir(_)) && crate::gen::is_ident(&s.name)).map(|s| s.name.clone()) {
+                built.prog.stmts.push(Stmt::Let("rbq".into(), Expr::Group(Box::new(Expr::bin(BinOp::Add, Expr::var(&b), Expr::lit(0))))));
+                built.analysis = analyse(&built.prog);
+                out.class_if(built.analysis.reads.contains(&b), "only-read-is-a-bidirectional-signal");
+            }
+        }
         let text = built_text(&built);
         let spec = gen_spec(
             &mut dch,
@@ -317,7 +327,13 @@ impl Property for C15 {
         let st = run_static_opts(tc, 120, Some(seed), true);
         let mut static_rows = 0;
         match (&st, is_static) {
-            (StaticRun::CtorPanic(p), _) => {
+            // (try_iter_static is this property's own subject: for a program that reads outputs it answers "no", and
+            // "it panicked" is not that answer; for a static program a panic is C10's)
+            (StaticRun::CtorPanic(p), false) => {
+                out.fail("c15:static-accepted", format!("the program reads outputs {:?}; try_iter_static did not refuse it but panicked: {p}", built.analysis.reads));
+                return out;
+            }
+            (StaticRun::CtorPanic(p), true) => {
                 out.fail(p.key(), format!("try_iter_static panicked: {p}"));
                 return out;
             }
